@@ -101,6 +101,7 @@ Lemma case_class_means_disagreement rs ins ys bs ds ok s b k :
   C07_case rs ins ys bs ds ok = (s, b, k) -> K_FIXED_OFFSET <= k -> b = false.
 Proof.
   unfold C07_case. intros H Hk.
+  destruct (negb (forallb2 _ bs ds)) eqn:Es in H; [now inversion H|].
   destruct (negb (cond_class rs =? 0) && _) eqn:Ew in H.
   - destruct (is_documented (cond_class rs)) eqn:Ed in H.
     + inversion H; subst. apply documented_below_findings in Ed. lia.
